@@ -165,6 +165,74 @@ where
     out_job!("i/out", I);
 }
 
+/// NUMERAL-LENGTH SWEEP. The length of a numeral changes at the powers of the radix, and a length
+/// estimate derived from the bit length (a buffer size, a loop count, a first-chunk width) can be
+/// off by one only at particular bit lengths. For a set of radices: r^k - 1, r^k, r^k + 1 for the
+/// exponents k with r^k representable, and 2^b - 1, 2^b for the bit lengths b - all of them on types
+/// up to 1088 bits, a spread selection on
+/// wider types in the quick tier, all of them in the thorough tier.
+fn length_sweep(sh: Shape, signed: bool, full: bool) -> Vec<(Pat, u32)> {
+    let w = sh.bits() as u64;
+    let wide = w > 1100 && !full;
+    let maxbits = if signed { w - 1 } else { w };
+    let mut out = Vec::new();
+    let wrap = |z: &Z| Pat(z.to_le_wrapped(sh.bytes));
+    for &(radix, dense) in &[(10u32, true), (3, false), (7, false), (36, false), (100, false), (255, false), (6, false), (12, false)] {
+        let r = Z::from_u64(radix as u64);
+        // exponents: all, or a spread selection
+        let kmax = (maxbits as f64 / (radix as f64).log2()) as u32 + 1;
+        let stride = if !wide { 1 } else if dense { (kmax / 120).max(1) } else { (kmax / 16).max(1) };
+        let mut p = Z::one();
+        let mut k = 0u32;
+        while p.bit_len() <= maxbits {
+            if k % stride == 0 || k + 4 >= kmax {
+                for e in [-1i64, 0, 1] {
+                    let v = p.add_i(e);
+                    if v.bit_len() <= maxbits {
+                        out.push((wrap(&v), radix));
+                        if signed {
+                            out.push((wrap(&v.neg()), radix));
+                        }
+                    }
+                }
+            }
+            p = p.mul(&r);
+            k += 1;
+        }
+    }
+    // every bit length: the largest and the smallest value of that length, in decimal (and base 3 on the narrower types)
+    let bstride = if wide { 41 } else { 1 };
+    for b in (1..=maxbits).filter(|b| b % bstride == 0 || *b + 3 >= maxbits) {
+        let hi = Z::pow2(b).add_i(-1);
+        let lo = Z::pow2(b - 1);
+        out.push((wrap(&hi), 10));
+        out.push((wrap(&lo), 10));
+        if signed {
+            out.push((wrap(&hi.neg()), 10));
+        }
+        if !wide {
+            out.push((wrap(&hi), 3));
+        }
+    }
+    out
+}
+
+fn sweep_jobs<U, I>(jobs: &mut Vec<Job>)
+where
+    U: UInt + Int<I = I>,
+    I: SInt + Int<U = U>,
+{
+    let sh: Shape = U::shape();
+    jobs.push(Job::new(job_name::<U>("length_sweep/u"), move |ctx| {
+        let full = ctx.tier() == vlib::Tier::Thorough;
+        ctx.enumerate("u_len", "r^k - 1, r^k, r^k + 1 for 8 radices and 2^b - 1, 2^(b-1) for the bit lengths b", length_sweep(sh, false, full).into_iter(), eval_out::<U>);
+    }));
+    jobs.push(Job::new(job_name::<U>("length_sweep/i"), move |ctx| {
+        let full = ctx.tier() == vlib::Tier::Thorough;
+        ctx.enumerate("i_len", "r^k - 1, r^k, r^k + 1 (both signs) for 8 radices and 2^b - 1, 2^(b-1) for the bit lengths b", length_sweep(sh, true, full).into_iter(), eval_out::<I>);
+    }));
+}
+
 fn exhaustive(jobs: &mut Vec<Job>) {
     type U8 = bnum::BUintD8<1>;
     type I8 = bnum::BIntD8<1>;
@@ -180,6 +248,7 @@ fn main() {
     macro_rules! add {
         ($U:ty, $I:ty) => {
             jobs_for::<$U, $I>(&mut jobs);
+            sweep_jobs::<$U, $I>(&mut jobs);
         };
     }
     for_all_cfgs!(add);
@@ -187,7 +256,7 @@ fn main() {
     runner::main(
         Property {
             id: "C11",
-            rule: "Every radix 2..=256 in every run (radices <= 36 and powers of two weighted x3). Values: structured W-bit patterns; sums c_i*(r^p)^i with many chunks c_i in {0, 1, r^p-1} for the chunk sizes p implied by the digit size and half the digit size (interior zero chunks); r^j and r^j+-1; quotient-structured values q*(r^p)^m + rem with q a structured binary pattern (zero / extreme binary digits in the running quotient); single-digit values; boundary values (MAX, MIN, -1, 0). Oracle: the canonical numeral from the reference integer by repeated single-limb division (lowercase, no leading zeros, '0' for zero, '-' + magnitude for negatives; the two's-complement pattern for to_radix_be/le of signed types), plus the round trips through from_str_radix / from_radix_be / from_radix_le; out-of-range radices {0, 1, 37, 257, 258, 65536, u32::MAX} panic and in-range ones never do. NON-TRIVIAL: the output has >= 3 digits. distinct = distinct (profile, job, inputs) by 64-bit hash. 8-bit configuration: all values x all radices.",
+            rule: "Every radix 2..=256 in every run (radices <= 36 and powers of two weighted x3). Values: structured W-bit patterns; sums c_i*(r^p)^i with many chunks c_i in {0, 1, r^p-1} for the chunk sizes p implied by the digit size and half the digit size (interior zero chunks); r^j and r^j+-1; quotient-structured values q*(r^p)^m + rem with q a structured binary pattern (zero / extreme binary digits in the running quotient); single-digit values; boundary values (MAX, MIN, -1, 0). Oracle: the canonical numeral from the reference integer by repeated single-limb division (lowercase, no leading zeros, '0' for zero, '-' + magnitude for negatives; the two's-complement pattern for to_radix_be/le of signed types), plus the round trips through from_str_radix / from_radix_be / from_radix_le; out-of-range radices {0, 1, 37, 257, 258, 65536, u32::MAX} panic and in-range ones never do. A deterministic NUMERAL-LENGTH SWEEP per configuration adds r^k - 1, r^k, r^k + 1 (both signs for signed types) for every exponent k with r^k representable and the radices {10, 3, 6, 7, 12, 36, 100, 255}, and 2^b - 1, 2^(b-1) for every bit length b in decimal (base 3 as well up to 1088 bits) - all exponents and bit lengths on types up to 1088 bits, a spread selection on wider types in the quick tier (about 120 decimal exponents, 16 exponents of the other radices, every 41st bit length), all of them in the thorough tier; these are the inputs on which a length estimate derived from the bit length is off by one. NON-TRIVIAL: the output has >= 3 digits. distinct = distinct (profile, job, inputs) by 64-bit hash. 8-bit configuration: all values x all radices.",
             assumptions: &[
                 "digits()/from_digits()/to_bits()/from_bits() are the trusted observation channel",
                 "reference numerals by repeated division of the reference integer by the radix (self-tested against the primitives' formatting)",
